@@ -1065,7 +1065,7 @@ fn run_mirror(ctx: &mut Ctx, rep: &mut Report, index: &mut u64) {
         "product: ALL DNA sequences over {A,C,T,G,N} of length 0..=6 (19531; thorough 0..=7, 97656) x every menu scoring matrix with M <= 3 \
          [integer-valued matrices of width 1..=3 (thorough ..=4) over 4 rows incl. a -inf wildcard cell, built with ScoringMatrix::new; log-odds matrices counts.to_freq(p).to_scoring(bg) for every count matrix of width 1..=3 \
          over the 8-row C09 menu x 5 (pseudocount, background) combinations (thorough: all 25), points with a 0/0 row excluded] x {generic pipeline, dispatcher arms generic / sse2 / avx2 forced through force_backend + Pipeline::dispatch()} \
-         (striping through the same pipeline; ScoringMatrix::score under each arm as well for the integer matrices). Oracle: both score vectors have L-M+1 entries (none when L<M) and \
+         (striping through the same pipeline; ScoringMatrix::score under each arm as well for the integer matrices). Oracle: both score vectors have L-M+1 entries (none when L<M), every valid position read through Index<usize> of the striped scores is the cell of the textbook formula, and \
          rc(m).score(rc(s))[L-M-i] == m.score(s)[i], exactly for integer matrices / -inf, within 2*gamma_{M-1}*sum|terms| otherwise. one evaluation = one (sequence, matrix, pipeline); non-trivial = L >= M",
     );
     let specs = mirror_specs(quick);
